@@ -1,12 +1,22 @@
 ---- MODULE Cover_Caps ----
-(* State cover: breadth-first exploration of the state-changing calls with a history variable
-   that is hidden by VIEW. TLC evaluates an invariant once per distinct state, so CoverEmit
+(* Behaviour extraction for the bounded Caps model, using a history variable hidden by VIEW.
+
+   State cover (CoverSpec + invariant CoverEmit): breadth-first exploration of the
+   state-changing calls. TLC evaluates an invariant once per distinct state, so CoverEmit
    prints, for every reachable abstract state, one behaviour that reaches it together with
-   everything a script can observe in that state. *)
+   everything a script can observe in that state.
+
+   Transition cover (TransSpec + action constraint TransEmit): every call of the model,
+   including the read-only ones and the failing / nil outcomes, from every reachable state:
+   one printed behaviour per generated transition. *)
 EXTENDS MC_Caps
 VARIABLE hist
 CoverInit == Init /\ hist = << >>
-CoverNext == MutNext /\ hist' = Append(hist, last')
+CoverNext == steps < MaxSteps /\ MutNext /\ hist' = Append(hist, last')
 CoverSpec == CoverInit /\ [][CoverNext]_<<vars, hist>>
 CoverEmit == PrintT(ToJson([h |-> hist, o |-> Obs]))
+
+TransNext == Next /\ hist' = Append(hist, last')
+TransSpec == CoverInit /\ [][TransNext]_<<vars, hist>>
+TransEmit == PrintT(ToJson([h |-> hist', o |-> Obs']))
 ====
